@@ -1286,6 +1286,10 @@ class Engine(object):
             obj[self.hashable(idx)] = v
         elif isinstance(obj, NVec) and isinstance(idx, tuple) and len(idx) == 2:
             r, c = idx
+            if isinstance(r, int) and isinstance(c, int) and isinstance(obj.items[self.index_value(r, len(obj.items), 'array')], NVec):
+                row = obj.items[self.index_value(r, len(obj.items), 'array')]
+                row.items[self.index_value(c, len(row.items), 'array')] = v        # a[i, j] = value
+                return
             if isinstance(r, slice) or not isinstance(c, slice):
                 raise Unsupported('2-D store other than a[i, :] = row')
             i = self.index_value(r, len(obj.items), 'array')
